@@ -327,15 +327,19 @@ class List(list, base.Symbolic, pg_typing.CustomTyping):
       source.append(v)
     # NOTE: the sealed flag is copied per node (the cloned children carry their
     # own), instead of sealing the whole copy when this node is sealed.
-    return List(
-        source,
-        value_spec=self._value_spec,
-        allow_partial=self._allow_partial,
-        accessor_writable=self._accessor_writable,
-        onchange_callback=self._onchange_callback,
-        # NOTE(daiyip): parent and root_path are reset to empty
-        # for copy object.
-        root_path=None).sym_seal(self._sealed)
+    # (built from the flags of the original, not from an enclosing
+    # `pg.allow_partial` scope, which would be written into typed elements.)
+    with flags.allow_partial(None):
+      new_list = List(
+          source,
+          value_spec=self._value_spec,
+          allow_partial=self._allow_partial,
+          accessor_writable=self._accessor_writable,
+          onchange_callback=self._onchange_callback,
+          # NOTE(daiyip): parent and root_path are reset to empty
+          # for copy object.
+          root_path=None)
+    return new_list.sym_seal(self._sealed)
 
   def _sym_missing(self) -> Dict[Any, Any]:
     """Returns missing fields."""
